@@ -1067,5 +1067,13 @@ fn main() {
     if args.len() > 1 && (args[1].ends_with("rustc") || args[1].contains("/rustc")) {
         args.remove(1);
     }
+    // extra codegen flags for the analysed crates only (e.g. the release profile's
+    // `-Coverflow-checks=off`), without invalidating the dependencies' build
+    if let Ok(extra) = std::env::var("BWFACTS_EXTRA_ARGS") {
+        let is_target = args.windows(2).any(|w| w[0] == "--crate-name" && w[1] == "blockwatch");
+        if is_target {
+            args.extend(extra.split_whitespace().map(|s| s.to_string()));
+        }
+    }
     rustc_driver::run_compiler(&args, &mut Cb);
 }
